@@ -203,7 +203,7 @@ mod verif_slurm_w {
         Some(t[..n].iter().map(|b| CH[(*b as usize + g.below(CH.len() as u64) as usize) % CH.len()]).collect())
     }
 
-    //@harness slurm_w_drop W fn=SlurmFile::drop_payload,ValidationOutputFilters::drop_payload,PrefixFilter::{drop_origin,drop_payload},BgpsecFilter::{drop_router_key,drop_payload},AspaFilter::{drop_aspa,drop_payload},Prefix::covers n=60000 timeout=600
+    //@harness slurm_w_drop W fn=SlurmFile::drop_payload,ValidationOutputFilters::drop_payload,PrefixFilter::{drop_origin,drop_payload},BgpsecFilter::{drop_router_key,drop_payload},AspaFilter::{drop_aspa,drop_payload},Prefix::covers n=150000 timeout=600
     verif_search!{ slurm_w_drop; |s0: u64, s1: u64, fam: bool, plen: u8, a: u128, a2: u128, n1: u32, n2: u32, ski: [u8; 20]| {
         let mut g = G(s0 ^ s1.rotate_left(31) ^ (a as u64).rotate_left(7) ^ ((n1 as u64) << 32) ^ n2 as u64 ^ (plen as u64) << 17);
         // the payload item: an origin (v4 / v6, max length absent / equal / greater), a router key or an ASPA
@@ -288,7 +288,7 @@ mod verif_slurm_w {
         None
     }
 
-    //@harness slurm_w_json W fn=SlurmFile::{new,to_string,to_string_pretty,to_writer,from_str,from_reader},PrefixAssertion::{serialize,deserialize,to_payload},AspaAssertion::{serialize,deserialize,to_payload},BgpsecAssertion::to_payload,Base64KeyInfo::{serialize,deserialize,from_str,fmt},serde_asn,serde_opt_asn,serde_key_identifier,serde_opt_key_identifier,Prefix::{from_str,fmt},LocallyAddedAssertions::iter_payload n=12000 timeout=600
+    //@harness slurm_w_json W fn=SlurmFile::{new,to_string,to_string_pretty,to_writer,from_str,from_reader},PrefixAssertion::{serialize,deserialize,to_payload},AspaAssertion::{serialize,deserialize,to_payload},BgpsecAssertion::to_payload,Base64KeyInfo::{serialize,deserialize,from_str,fmt},serde_asn,serde_opt_asn,serde_key_identifier,serde_opt_key_identifier,Prefix::{from_str,fmt},LocallyAddedAssertions::iter_payload n=40000 timeout=600
     verif_search!{ slurm_w_json; |s0: u64, s1: u64, a: u128, a2: u128, n1: u32, n2: u32, ski: [u8; 20], t: [u8; 8]| {
         let mut g = G(s0 ^ s1.rotate_left(31) ^ (a as u64).rotate_left(7) ^ ((n1 as u64) << 32) ^ n2 as u64 ^ (t[0] as u64) << 17);
         // a random file: filters and assertions of all kinds, every optional field present / absent
